@@ -5,8 +5,8 @@ spec/ElidedListTrace.tla  evaluates C05 on every observation
 """
 from .. import core
 
-THRU = [" - ", "-", " – ", " through ", " thru ", " thru. ", " to "]
-AND = [", ", " and ", " & ", ", and ", ","]
+THRU = [" - ", "-", " – ", " through ", " thru ", " thru. ", " to ", " Through ", " THROUGH ", " Thru ", " THRU ", " To ", " TO "]
+AND = [", ", " and ", " & ", ", and ", ",", " And ", " AND "]
 SEC_WORDS = [("Sec", "Secs"), ("Sec.", "Secs."), ("Section", "Sections"), ("Sect.", "Sects."), ("§", "§§")]
 SEC_REPEAT = ["Sec", "Sec.", "Section", "Sect.", "§"]
 LOT_WORDS = [("Lot", "Lots"), ("L", "L"), ("Lt", "Lts"), ("Lt.", "Lts"), ("L.", "L.")]
